@@ -807,12 +807,25 @@ func ruleLibReflect(c *Ctx, r *R) {
 				if !ok {
 					continue
 				}
-				m := isReflectFn(call.Call.StaticCallee(), "Set", "SetLen", "SetMapIndex", "MapIndex", "MakeSlice", "Call", "CallSlice", "Append")
+				m := isReflectFn(call.Call.StaticCallee(), "Set", "SetLen", "SetMapIndex", "MapIndex", "MakeSlice", "Call", "CallSlice", "Append", "FieldByName", "FieldByIndex", "FieldByNameFunc", "FieldByIndexErr")
 				if m == "" {
 					continue
 				}
 				args := call.Call.Args
 				switch m {
+				case "FieldByIndexErr":
+					emit("reflect.FieldByIndexErr:nil-embedded", call, true, "promoted field reached with the error-returning walk: a nil embedded pointer is reported, not dereferenced", "")
+				case "FieldByName", "FieldByIndex", "FieldByNameFunc":
+					// Value.FieldByName/FieldByIndex walk embedded pointers and panic
+					// ("indirection through nil pointer to embedded struct") when one is nil;
+					// the host decides the struct, so no guard in otto can rule it out.
+					single := false
+					if m == "FieldByIndex" {
+						if elems, known := variadicElems(args[1]); known && len(elems) == 1 {
+							single = true
+						}
+					}
+					emit("reflect."+m+":nil-embedded", call, single, "a multi-step field walk on a host struct dereferences embedded pointers, and a nil one panics in reflect (`vm.Set(\"o\", &Outer{})` with `type Outer struct{ *Inner }`, then `o.X`); only a single-step index or FieldByIndexErr is safe", "")
 				case "Set", "SetLen":
 					recv := args[0]
 					ve := x.valueExpr(recv, 0)
